@@ -989,6 +989,16 @@ impl ContinuityStore {
             (head_seq, last_message)
         };
 
+        // A caller-supplied summary artifact must exist: a handoff always carries a resolvable
+        // summary. Checked before anything is written.
+        if let Some(artifact_id) = summary_artifact_id.as_deref() {
+            if !crate::handoff_context_bundle::artifact_exists(&self.workspace_root, artifact_id) {
+                return Err(format!(
+                    "handoff summary_artifact_id not found: {artifact_id}"
+                ));
+            }
+        }
+
         let workspace = workspace_key(&self.workspace_root);
         let thread_id = self.create_continuity(workspace, None, title, false)?;
 
